@@ -18,7 +18,7 @@ import (
 	"verif/internal/wx"
 )
 
-var suite = vrt.NewSuite("C14", "(expression recipe | equation recipe, data trees): expressions and equations are built through the public constructors with keys and string constants from a hostile pool (both quote kinds, backslash, control characters, non-ASCII, invalid UTF-8, '.', '[', ']', '*', '@', '$', space, empty), unions with string members, slices with defaulted bounds, nested filters, and operators of every precedence class nested on either side with and without groups. Oracle: for String() and BracketString(): parsing the text succeeds, printing the parsed value gives the identical text, and on 6 generated data trees the parsed value selects what the original selects; for Script/Filter/Equation strings the re-parsed script prints identically and Match agrees with the original on generated elements; the fixed-semantics part of the original constructor tree is also evaluated by the reference semantics, so that printed parentheses are checked against the intended tree. Non-trivial = a key needing bracket/quoted form, or an equation with >=2 operators of different precedence; distinct = distinct recipe")
+var suite = vrt.NewSuite("C14", "(expression recipe | equation recipe, data trees): expressions and equations are built through the public constructors with keys and string constants from a hostile pool (both quote kinds, backslash, control characters, non-ASCII, invalid UTF-8, '.', '[', ']', '*', '@', '$', space, empty), unions with string members, slices with defaulted bounds, nested filters, and operators of every precedence class nested on either side with and without groups. Oracle: for String() and BracketString(): parsing the text succeeds, printing the parsed value gives the identical text, and on 6 generated data trees the parsed value selects what the original selects; for Script/Filter/Equation strings the script re-parsed by jp.NewScript, jp.MustParseEquation, jp.ParseString and jp.NewFilter / MustNewFilter prints identically and Match agrees with the original on generated elements; the fixed-semantics part of the original constructor tree is also evaluated by the reference semantics, so that printed parentheses are checked against the intended tree. Non-trivial = a key needing bracket/quoted form, or an equation with >=2 operators of different precedence; distinct = distinct recipe")
 
 type Case struct {
 	Path jpx.Path `json:"path,omitempty"`
